@@ -734,7 +734,9 @@ class DelayDistribution:
     def equivalent(self, other: "DelayDistribution") -> bool:
         return True
 
-    def apply_delay(self, rate_out: float, input: "InputState", ts_start: Union[float, jax.typing.ArrayLike]) -> "InputState":
+    def apply_delay(
+        self, rate_out: float, input: "InputState", ts_start: Union[float, jax.typing.ArrayLike], skip: bool = False
+    ) -> "InputState":
         return input
 
 
@@ -995,7 +997,9 @@ class TrainableDist(DelayDistribution):
             return False
         return True
 
-    def apply_delay(self, rate_out: float, input: "InputState", ts_start: Union[float, jax.typing.ArrayLike]) -> "InputState":
+    def apply_delay(
+        self, rate_out: float, input: "InputState", ts_start: Union[float, jax.typing.ArrayLike], skip: bool = False
+    ) -> "InputState":
         """Apply the delay to the input state.
 
         The delay is determined by the delay distribution of the connection.
@@ -1004,6 +1008,7 @@ class TrainableDist(DelayDistribution):
             rate_out: the output rate of the connection
             input: the input state
             ts_start: the start time of the computation
+            skip: whether the connection is skipped (a message arriving exactly at ts_start is then not yet available)
 
         Returns:
             The input state with the delay applied. This reduces the window size of the input by self.window(rate_out).
@@ -1017,7 +1022,8 @@ class TrainableDist(DelayDistribution):
         new_delay_dist, d = self.sample()
         ts_recv = input.ts_sent + d
         ts_recv = jnp.where(input.seq < 0, input.ts_recv, ts_recv)  # If seq < 0, then keep the original ts_recv
-        idx_max = jnp.argwhere(ts_recv > ts_start, size=1, fill_value=cum_window)[0, 0]
+        not_arrived = ts_recv >= ts_start if skip else ts_recv > ts_start
+        idx_max = jnp.argwhere(not_arrived, size=1, fill_value=cum_window)[0, 0]
         if self.interp == "zoh":
             # Slice the input state
             idx_min = idx_max - window
